@@ -12,6 +12,7 @@ type Runner struct {
 	stores  map[int]*storeEntry
 	maps    map[int]*mapEntry
 	sks     map[int]*skEntry
+	dss     map[int]*dsEntry
 	addMode int
 	// per-history switches set by `#frame` (observe before/after every refused call)
 	checkFrame bool
@@ -25,13 +26,14 @@ type Runner struct {
 }
 
 func NewRunner() *Runner {
-	return &Runner{stores: map[int]*storeEntry{}, maps: map[int]*mapEntry{}, sks: map[int]*skEntry{}, stats: map[string]int{}}
+	return &Runner{stores: map[int]*storeEntry{}, maps: map[int]*mapEntry{}, sks: map[int]*skEntry{}, dss: map[int]*dsEntry{}, stats: map[string]int{}}
 }
 
 func (r *Runner) reset() {
 	r.stores = map[int]*storeEntry{}
 	r.maps = map[int]*mapEntry{}
 	r.sks = map[int]*skEntry{}
+	r.dss = map[int]*dsEntry{}
 	r.addMode = 0
 	r.checkFrame = false
 }
@@ -62,6 +64,10 @@ func (r *Runner) Exec(line string) (out string, emit bool) {
 		return r.execStore(f[0], f[1:]), true
 	case "M", "mv", "ml", "mi", "K", "add", "q", "qs", "obs", "merge", "copy", "clear", "rew", "encchk", "dec", "decm", "same":
 		return r.execSketch(f[0], f[1:]), true
+	case "D", "dadd", "dlq", "duq", "dmin", "dmax", "dsum", "dcount", "dmerge":
+		return r.execDataset(f[0], f[1:]), true
+	case "mpchk", "mpalpha", "mscan", "mapenc", "mapeq":
+		return r.execMapping(f[0], f[1:]), true
 	case "codec":
 		return r.execCodec(f[1:]), true
 	}
